@@ -234,6 +234,10 @@ def r_only_moduli(ctx, model):
               expected="numpy.allclose(column, 0, atol=drop_atol)", found=f"atol = {sorted({str(t) for t in tests})}",
               explanation="the test that omits a component uses another tolerance than the drop_atol argument (or none), so components "
                           "below the requested drop tolerance are kept or larger ones are dropped", key="drop_atol")
+    ctx.check(not sc.bad_vanish_tests, "a component is omitted iff |value| <= drop_atol at EVERY volume", w,
+              expected="allclose(col, 0, atol) / (abs(col) <= atol).all() / abs(col).max() <= atol", found="; ".join(sorted(set(sc.bad_vanish_tests))[:3]) or "canonical",
+              explanation="the test that omits a component is not 'magnitude below the drop tolerance at all volumes' (e.g. the magnitude of the largest signed "
+                          "value): a component that is non-positive everywhere, or touches zero at one volume, is dropped although it does not vanish", key="drop_test.form")
     ctx.check(not bad, "non-modulus columns pass through untouched, even when all-zero", w, expected="V, flag, P kept",
               found=f"missing or changed: {bad}", explanation="a non-modulus column is dropped or overwritten by fill_cij", key="only_moduli")
     # a name that merely contains digits is not a modulus column either way is out of the property's scope
